@@ -665,10 +665,16 @@ class DHTCommunity(Community):
         futures: list[Coroutine[Any, Any, list[Node] |
                                           list[DHTValue] |
                                           tuple[list[DHTValue], Crawl]]] = []
+        crawls: list[Crawl] = []
         for routing_table in self.routing_tables.values():
             crawl = Crawl(target, routing_table, force_nodes=force_nodes, offset=offset)
+            crawls.append(crawl)
             futures.append(self._find(crawl, debug=debug))
         results = await gather(*futures)
+
+        if not force_nodes and not debug and len(crawls) > 1:
+            # Every address family has its own crawl: only report the highest version per signer over all of them.
+            return tuple(self.post_process_values([value for crawl in crawls for value in crawl.values]))
 
         if debug:
             results_debug = cast("tuple[tuple[list[DHTValue], Crawl], ...]", results)
